@@ -19,6 +19,7 @@ from ..drivers import Harness, jsonable
 from ..e2 import Choices, explore
 from ..timeline import EPS, run_async, run_sync
 
+UNIT_TIMEOUT = 900  # backstop against a hung unit only; thread-slice subtrees can take minutes on a loaded machine
 LEVEL = "exploration"
 RULE = (
     "SVC machine (idle -GO-> work[invoke] -> ok/err) x service kind {coroutine function, plain callable, child machine} "
@@ -329,8 +330,14 @@ def units(tier: str) -> List[Any]:
     maxlen = 2 if tier == "quick" else 3
     sc = scripts(maxlen)
     us = []
+    from . import c09_preempt as PP
+    from ..preempt import split
+
+    core.install_logging()
     for pv, (bq, bt) in PREEMPT.items():
-        us.append(("preempt", pv, bq if tier == "quick" else bt, tier))
+        b = bq if tier == "quick" else bt
+        for root in split(PP, pv, b):
+            us.append(("preempt", pv, (b, root), tier))
     for v in variants():
         for engine in ("sync", "async"):
             if not applicable(v, engine):
@@ -346,8 +353,8 @@ def run_unit(unit):
         from . import c09_preempt as P
         from ..preempt import unit_result
 
-        r = unit_result("C09", P, unit[1], unit[2], lambda v: f"caller ops {P.VARIANTS[v]} at the instant the invoked child machine finishes, against its runner and timer threads")
-        r["caps"].append(f"thread slice: at most {unit[2][1]} non-default scheduling choices per execution")
+        r = unit_result("C09", P, unit[1], unit[2][0], lambda v: f"caller ops {P.VARIANTS[v]} at the instant the invoked child machine finishes, against its runner and timer threads", root=unit[2][1])
+        r["caps"].append(f"thread slice: at most {unit[2][0][1]} non-default scheduling choices per execution")
         return r
     variant, engine, batch, tier = unit
     res = dict(states=0, transitions=0, executions=0, evaluations=0, distinct=[], violations=[], samples=[], caps=[])
